@@ -11,6 +11,7 @@ recorded: the op is pushed onto `pending` on every path that continues, and the 
 add_succ_with_undo is stored in the op's `undo` field.
 Not decided: that the restored column *values* equal the old ones (SuccUndo contents, reset_top).
 """
+import re
 from .. import cfg, util, facts
 from ..util import norm_fn, callee
 
@@ -149,6 +150,23 @@ def run(ctx):
         reversed_ = any(c.endswith("::rev") or "Rev<" in c for c in cs)
         in_loop = any(rb.can_reach(s, bi) for s in rb.succ[bi])
         ctx.ob("R11-rollback", "rollback|undo_op over pending in reverse", from_pending and reversed_ and in_loop, t["sp"], "from pending: %s, reversed: %s, in loop: %s" % (from_pending, reversed_, in_loop))
+        # every pending op is undone: no adaptor between `pending` and the loop drops elements
+        dropping = sorted(c.split("::")[-1] for c in cs if re.search(r"::(filter|filter_map|skip|skip_while|take|take_while|step_by|map_while)$", c))
+        ctx.ob("R11-rollback", "rollback|every pending op is undone", not dropping, t["sp"], "no filtering adaptor on the pending list" if not dropping else
+               "the undo loop runs over a filtered view of the pending ops (%s): an op that is skipped stays in the op set after the rollback" % dropping)
+    # the successor entries a transaction added are removed in the reverse of the order in which they were added (positions shift)
+    us = ctx.body(OS + "::undo_succ")
+    splices = [(bi, t) for bi, t in us.calls() if (norm_fn(t.get("fn")) or "").endswith("::splice")]
+    ctx.floor("column splices in undo_succ", len(splices), 4)
+    nexts = [(bi, t) for bi, t in us.calls() if norm_fn(t.get("fn")) == "core::iter::traits::iterator::Iterator::next"]
+    rev_ok = False
+    for bi, t in nexts:
+        ty = (t.get("ga") or [""])[0]
+        pv = us.provenance(t["args"][0], through_calls=True)
+        if pv.depends_on_param(2):
+            rev_ok = "Rev<" in ty or any(norm_fn(c).endswith("::rev") for c in pv.callees())
+    ctx.ob("R11-rollback", "undo_succ|SuccUndo list walked in reverse", rev_ok, us.rec["sp"], "iterates op_pos.iter().rev()" if rev_ok else
+           "the recorded successor insertions are undone in the order they were made: later entries shift the sub positions of earlier ones, so the wrong rows are removed")
     rem = [(bi, t) for bi, t in rb.calls() if callee(t) == AM + "::remove_actor"]
     ctx.floor("remove_actor calls in rollback", len(rem), 1)
     from .. import rules
